@@ -160,6 +160,7 @@ class LockStep:
         self.res['evaluations'] += 1
         self.bump('ref_' + verdict)
         info['emu'] = k
+        info['emu_sig'] = sig
         if verdict != 'ok':
             return verdict, info, None, pre, post, ref
         rowname = info.get('row') or '<undefined>'
@@ -187,7 +188,7 @@ class LockStep:
             # an instruction that is UNDEFINED in this state (mode, security...) and fails its condition may either be a
             # NOP or take the Undefined Instruction exception (IMPLEMENTATION DEFINED)
             v2, ref2, info2 = RS.step(pre, ctx.cfg, force_cond=True)
-            if v2 == 'ok' and ref2.events == ['undef'] and not RS.compare(ref2, post):
+            if v2 == 'ok' and ref2.events == ['undef'] and not info2.get('undef_from_execution') and not RS.compare(ref2, post):
                 self.bump('undefined_with_failed_condition_trapped')
                 return 'ok', info, [], pre, post, ref
         return 'ok', info, diffs, pre, post, ref
